@@ -341,7 +341,21 @@ func (fv *FV) specDeref(env *SpecEnv, ref string, pe types.Type) Val {
 	return fv.derefStruct(env.cur, ref, pe)
 }
 
+// ghostKey: ghost variables are integer-valued global locations written only
+// by `ghostset` clauses of contracts.
+func ghostKey(name string) string { return "G:ghost." + name }
+
+func (fv *FV) ghostGet(st *State, name string) Val {
+	h := fv.heapGet(st, ghostKey(name), "Int", types.Typ[types.Int])
+	return Val{T: h.T, S: "Int", Go: types.Typ[types.Int]}
+}
+
 func (fv *FV) specSel(env *SpecEnv, x SSel) Val {
+	if id, ok := x.X.(SIdent); ok && id.Name == "ghost" {
+		if _, bound := env.names["ghost"]; !bound {
+			return fv.ghostGet(env.cur, x.Sel)
+		}
+	}
 	// qualified constant? pkg.Name
 	if id, ok := x.X.(SIdent); ok {
 		if _, bound := env.names[id.Name]; !bound && env.pkg != nil {
